@@ -251,6 +251,24 @@ class ShippedMonitor(C05Monitor):
         g = x.desc["gsc"]
         kind = g["kind"]
         Mh = x.desc["Mh"]
+        if kind == "evals" and not any(c is not None for c in x.w.cutoffs) and len(x.w.log) > g["n"]:
+            # an evaluation limit may be crossed after any generation of any deme, and the engines are to notice it there: counted from
+            # the very call that makes the limit true (not from the consult that happens to see it), a deme evaluates at most one more
+            # generation
+            import collections as _c
+
+            x.w.log.settle_all()
+            after = _c.Counter(o for o in x.w.log.owner[g["n"] :] if o is not None)
+            demes = {d.id: d for _, d in tree.all_demes}
+            for i, n_after in after.items():
+                d = demes.get(i)
+                if d is None or type(d).__name__ == "LocalDeme" or not d.history:
+                    continue
+                one_gen = len(d.history[0])
+                if n_after > one_gen:
+                    x.violate(f"C05/more-than-one-iteration-after-the-limit-was-crossed:{type(d).__name__}",
+                              f"{type(d).__name__} {i} evaluated {n_after} points after the call that made {x.w.real_gsc} true (one generation = {one_gen})")
+            x.flag("evaluation limit crossed: evaluations after the crossing call counted per deme")
         if kind == "metaepoch" and g["n"] <= Mh:
             n = g["n"]
             if tree.metaepoch_count != n:
@@ -342,6 +360,12 @@ def _sweeps(tier, seed):
     shapes = rep_shapes() if tier == "thorough" else rep_shapes()[::2]
     for k, eng in enumerate(shapes):
         out.append(dict(engines=list(eng), gens=1 + k % 2, sprout={"kind": ("simple", "nbc")[k % 2], "L": 2}, seed=1 + seed % 1000, Mh=4, drive="run"))
+    # beyond the small scope: 24-40 generations per metaepoch (the limit can be crossed at every one of them), and a tree of more than
+    # 64 demes in which the limit is crossed in the middle of a late metaepoch
+    out.append(dict(engines=["SEA"], gens=40, pop=8, sprout={"kind": "simple", "L": 2}, seed=1 + seed % 1000, Mh=2, drive="run", sweep_step=3))
+    out.append(dict(engines=["DE", "SEA"], gens=24, pop=8, sprout={"kind": "simple", "L": 1}, seed=2 + seed % 1000, Mh=2, drive="run", sweep_step=5))
+    out.append(dict(engines=["SEA", "DE"], gens=3, Mh=70, seed=3 + seed % 1000, drive="run", lsc=[None, {"kind": "metaepoch", "m": 1}], sprout={"kind": "scripted", "L": 1, "default": 1},
+                    sweep_last=60 if tier == "quick" else 240, sweep_step=2))
     return out
 
 
@@ -366,7 +390,7 @@ def units(tier, seed):
 
     for mode, desc in lifecycle_descs(tier, seed):
         if mode == "bounded":
-            us += split_units(dict(desc, drive="run"), 2 if tier == "quick" else 3, "GLS", {"kind": "life"})
+            us += split_units(dict(desc, drive="run"), min(2 if tier == "quick" else 3, desc.get("max_bound", 9)), "GLS", {"kind": "life"})
     return us
 
 
@@ -385,7 +409,8 @@ def run_unit(unit):
     elif unit["kind"] == "evalsweep":
         base = Execution(dict(unit["desc"], choices=""), [], []).run()
         E = len(base.w.log) if base.w is not None else 0
-        for N in range(1, E + 1):
+        lo = max(1, E - unit["desc"].get("sweep_last", E) + 1)
+        for N in range(lo, E + 1, unit["desc"].get("sweep_step", 1)):
             for kind in ("evals", "fevals"):
                 if kind == "fevals" and N % 3:
                     continue
